@@ -248,6 +248,21 @@ func (m *fakeMaster) runScript(c net.Conn, mc *masterConn, acts []action) bool {
 				mc.order = append(mc.order, "quit")
 				m.mu.Unlock()
 			}
+			// whatever else the replica sends after the stream has ended is part of what the master received
+			// (a second dump request, another statement)
+			if len(p) >= 11 && p[0] == 0x12 {
+				m.mu.Lock()
+				mc.dumps = append(mc.dumps, dumpReq{Pos: binary.LittleEndian.Uint32(p[1:5]), Flags: binary.LittleEndian.Uint16(p[5:7]),
+					ServerID: binary.LittleEndian.Uint32(p[7:11]), File: string(p[11:])})
+				mc.order = append(mc.order, "dump")
+				m.mu.Unlock()
+			}
+			if len(p) > 0 && p[0] == 0x03 {
+				m.mu.Lock()
+				mc.queries = append(mc.queries, string(p[1:]))
+				mc.order = append(mc.order, "query")
+				m.mu.Unlock()
+			}
 		}
 	}
 	for _, a := range acts {
